@@ -41,8 +41,31 @@ Proof.
   apply N.leb_le in L1, L2.
   assert (G : (49 <=? c) && (c <=? 57) = true).
   { apply andb_true_intro; split; apply N.leb_le; lia. }
-  rewrite G, (take_digits_all t Hc2). exact Hp.
+  rewrite G, Hc2. cbn [andb]. exact Hp.
 Qed.
+
+(* only whole names count (fullmatch): a name that is accepted is "shelf-" followed by a digit
+   string without leading zero whose value is the id *)
+Lemma match_shelf_exact fn n : match_shelf fn = Some n ->
+  exists c d, fn = PREFIX ++ c :: d /\ 49 <= c <= 57 /\ forallb is_dec_char d = true
+              /\ parse_dec (c :: d) = Some n.
+Proof.
+  unfold match_shelf. intros H.
+  assert (SP : forall p s r, strip_prefix p s = Some r -> s = p ++ r).
+  { induction p as [|a p IH]; intros s r E; cbn [strip_prefix] in E.
+    - destruct s; injection E as <-; reflexivity.
+    - destruct s as [|b s]; [discriminate|]. destruct (a =? b) eqn:X; [|discriminate].
+      apply N.eqb_eq in X. subst. cbn [app]. f_equal. apply IH. exact E. }
+  destruct (strip_prefix PREFIX fn) as [[|c r]|] eqn:E; try discriminate.
+  destruct ((49 <=? c) && (c <=? 57) && forallb is_dec_char r) eqn:G; [|discriminate].
+  apply andb_prop in G as [G1 G2]. apply andb_prop in G1 as [L1 L2]. apply N.leb_le in L1, L2.
+  exists c, r. split; [exact (SP _ _ _ E)|]. split; [lia|]. split; [exact G2|exact H].
+Qed.
+
+(* the old, start-anchored pattern accepted stray names *)
+Example match_shelf_old_stray :
+  match_shelf_old (PREFIX ++ [49; 120]) = Some 1 /\ match_shelf (PREFIX ++ [49; 120]) = None.
+Proof. vm_compute. split; reflexivity. Qed.
 
 Lemma get_shelf_ids_app a b : get_shelf_ids (a ++ b) = get_shelf_ids a ++ get_shelf_ids b.
 Proof. unfold get_shelf_ids. apply flat_map_app. Qed.
